@@ -264,7 +264,44 @@ def r07_6(ctx, prog, crate):
     r06_4(Renamed(ctx, "R07.6"), prog, crate)
 
 
+def unwinding_task_path(ctx, rule, prog, crate):
+    """A task call that panics unwinds to the catch_unwind of its thread (worker loop / broadcast_task): nothing between the
+    two has a non-unwinding ABI. A `extern "C"` trampoline (function pointer field, local or function of the pool module)
+    turns the panic into a process abort - the caller is never woken and no later broadcast runs."""
+    n = 0
+    bad = []
+    for name in ("TaskShared", "Task", "ThreadPool"):
+        adt = prog.adt(POOL + name, crate)
+        if not adt:
+            continue
+        for v in adt["variants"]:
+            for f in v["fields"]:
+                n += 1
+                if 'extern "' in f["ty"] and 'extern "Rust"' not in f["ty"] and "-unwind" not in f["ty"]:
+                    bad.append(("%s.%s" % (name, f["name"]), f["ty"]))
+    for b in prog.lib_bodies(crate):
+        if not b.path.startswith(POOL) or "::tests::" in b.path or "::benches::" in b.path:
+            continue
+        ctx.saw(b)
+        tys = {x["ty"] for x in (b.locals.values() if isinstance(b.locals, dict) else b.locals) if isinstance(x, dict) and x.get("ty")}
+        for t in tys:
+            n += 1
+            if t and 'extern "' in t and 'extern "Rust"' not in t and "-unwind" not in t:
+                bad.append((b.path, t))
+    ctx.anchor(rule, "field and local types on the pool's task path", n, 20)
+    for where_, t in sorted(set(bad)):
+        ctx.fail(rule, ["non-unwinding-abi", where_.rsplit("::", 1)[-1]], "`%s` has type `%s`: a panic of the task cannot unwind through it "
+                 "to the thread's catch_unwind and aborts the process" % (where_, t), None)
+    if not bad:
+        ctx.ok(rule, "task-path-unwinds")
+
+
+def r07_7(ctx, prog, crate):
+    unwinding_task_path(ctx, "R07.7", prog, crate)
+
+
 def run(ctx, prog, crate):
+    r07_7(ctx, prog, crate)
     r07_6(ctx, prog, crate)
     r07_5(ctx, prog, crate)
     r07_1(ctx, prog, crate)
